@@ -204,10 +204,37 @@ def r10d(chk, rid='R10.d'):
     if ok:
         ok, _ = g.all_paths_pass([ENTRY], lambda n: n in read, targets=[commit[0].id])
     chk.ob(rid, DECL, 'CSSStyleDeclaration.removeProperty', 'the effective value is read before the entries are removed', ok, '')
-    src = ast.unparse(rp)
-    chk.ob(rid, DECL, 'CSSStyleDeclaration.removeProperty', 'every entry with the normalised name is filtered out', 'item.value.name == nname' in src and 'newseq.appendItem(item)' in src, '', shape=True)
-    rets = [text(r.value) for r in ast.walk(rp) if isinstance(r, ast.Return)]
-    chk.ob(rid, DECL, 'CSSStyleDeclaration.removeProperty', 'returns the value read before', rets == ['r'], str(rets), shape=True)
+    # what removeProperty computes: evaluated on its syntax tree over a model declaration block
+    from sa.absint import Evaluator, Raised, Record
+
+    class PropM(Record):
+        pass
+
+    def block():
+        return [Record(value=Record(cssText='/*c*/'), type='COMMENT'),
+                Record(value=PropM(name='color', literalname='color', tag=1), type='Property'),
+                Record(value=PropM(name='color', literalname='COLOR', tag=2), type='Property'),
+                Record(value=PropM(name='top', literalname='top', tag=3), type='Property'),
+                Record(value=PropM(name='color', literalname='color', tag=4), type='Property'),
+                Record(value=PropM(name='x', literalname='X', tag=5), type='Property')]
+
+    n = bad = 0
+    first = ''
+    for name in ('color', 'COLOR', 'Color', 'top', 'x', 'X', 'absent'):
+        for normalize in (True, False):
+            kept = []
+            me = Record(seq=block(), _checkReadonly=lambda: None, getPropertyValue=lambda nm, normalize=True: ('value before', nm, normalize),
+                        _tempSeq=lambda: Record(appendItem=lambda it: kept.append(it)), _normalize=lambda x: x.lower(), _setSeq=lambda sq: setattr(me, 'committed', sq), committed=None)
+            got = Evaluator(rp, intrinsics={'Property': PropM}, module=m, cls='CSSStyleDeclaration').run(self=me, name=name, normalize=normalize)
+            n += 1
+            want = [it for it in block() if not (isinstance(it.value, PropM) and (it.value.name == name.lower() if normalize else it.value.literalname == name))]
+            tags = [getattr(it.value, 'tag', 'comment') for it in kept]
+            wtags = [getattr(it.value, 'tag', 'comment') for it in want]
+            ok = tags == wtags and got == ('value before', name, normalize) and me.committed is not None
+            if not ok:
+                bad += 1
+                first = first or f'removeProperty({name!r}, normalize={normalize}) keeps entries {tags} (prescribed {wtags}), returns {got!r}, commits: {me.committed is not None}'
+    chk.ob(rid, DECL, 'CSSStyleDeclaration.removeProperty', f'all {n} name/normalize cases: exactly the entries of the name are removed, order and comments kept, the value read before is returned', bad == 0, first)
 
 
 # ---------------------------------------------------------------------------
